@@ -488,6 +488,39 @@ func c13Scenarios(tier string) []*world.Scenario {
 			out = append(out, sc)
 		}
 	}
+	// the redirected request is followed, on the same connection, by a request the proxy answers itself (PING, an unknown
+	// command) or by QUIT: the local reply / the close must wait for the final node's reply
+	for _, rc := range c13Cases[:3] {
+		for _, kind := range []string{"get", "mget", "del"} {
+			for _, tail := range []string{"quit", "ping", "unknown", "get-quit"} {
+				sc := c13Scenario(rc, kind, 0, b)
+				key := keysA[5]
+				var r Req
+				switch kind {
+				case "get":
+					r = GetReq(key)
+				case "mget":
+					r = MGetReq(keysB[2], key)
+				case "del":
+					r = DelReq(key, keysC[2])
+				}
+				reqs := []Req{r}
+				switch tail {
+				case "quit":
+					reqs = append(reqs, QuitReq())
+				case "ping":
+					reqs = append(reqs, PingReq(), GetReq(keysC[1]))
+				case "unknown":
+					reqs = append(reqs, UnknownReq(), GetReq(keysC[1]))
+				case "get-quit":
+					reqs = append(reqs, GetReq(keysC[1]), QuitReq())
+				}
+				sc.Clients = []world.ClientSpec{ClientOf(reqs, true)}
+				sc.Name = fmt.Sprintf("C13/%s/%s-then-%s/d%d", rc.name, kind, tail, b)
+				out = append(out, sc)
+			}
+		}
+	}
 	// slot numbers at the edges of the redirect line's number field: slot 0, a one-digit slot, the last slot of the range
 	initSlotKeys()
 	for _, rc := range c13Cases[:3] {
